@@ -429,11 +429,13 @@ Proof.
       destruct (Hfind _ idx Ei (HLbnd _ (mem_N_In _ _ Hl))) as [l [Efl Eoff]].
       unfold lbl_idx. rewrite Ei, Efl, Eoff.
       cbn [app]. rewrite poke4_at by exact Hpre. rewrite u32_back by assumption.
-      cbn [ksize]. rewrite (app_assoc pre (le_bytes 4 v) (zenc ks vs ++ rest)).
-      rewrite (IH vs (pre ++ le_bytes 4 v) rest (off + N.of_nat 4) Hr); [rewrite <- !app_assoc; reflexivity|].
+      cbn [ksize].
+      pose proof (IH vs (pre ++ le_bytes 4 v) rest (off + N.of_nat 4) Hr) as IH'.
+      rewrite <- !app_assoc in IH'. rewrite <- !app_assoc. apply IH'.
       rewrite lenN_app. unfold lenN at 2. rewrite le_bytes_length. rewrite Hpre. reflexivity.
-    + cbn [app]. rewrite <- app_assoc. rewrite (app_assoc pre (le_bytes (ksize k) v) (zenc ks vs ++ rest)).
-      rewrite (IH vs (pre ++ le_bytes (ksize k) v) rest (off + N.of_nat (ksize k)) Hr); [rewrite <- !app_assoc; reflexivity|].
+    + cbn [app].
+      pose proof (IH vs (pre ++ le_bytes (ksize k) v) rest (off + N.of_nat (ksize k)) Hr) as IH'.
+      rewrite <- !app_assoc in IH'. rewrite <- !app_assoc. apply IH'.
       rewrite lenN_app. unfold lenN at 2. rewrite le_bytes_length. rewrite Hpre. reflexivity.
 Qed.
 
